@@ -3,7 +3,9 @@
    forked calls delivered in ANY order -> target queue), stated with the
    predicates of Spec/C18.v.  Nothing but statements closed by [exact].
 
-   [run c steps] executes a schedule: SSrc = a call on the source, SDel i =
+   [run c steps] executes a schedule: SSrc = a call on the source (SChk a
+   CanAdd/CanRemove check, SVeto a mutation vetoed by a later-bound handler,
+   SBar an Add of a state that Removes piped state 0, possibly vetoed), SDel i =
    the i-th in-flight forked call reaches the target, SHold / SRel = the
    target is made busy / goes on.  All theorems quantify over every
    configuration (number of states, Multi flags), every toggle history and
@@ -29,7 +31,8 @@ Definition ends_differing (c : pcfg) (steps : list step) (sa ta : bool) : Prop :
 (* non-flat pipes (Bind, BindMany, BindReady, BindConnected, BindErr): for
    every history and every schedule - target held or not, calls delivered in
    any order or not at all - every call on the source returns Executed
-   without waiting for the target *)
+   (or Canceled by the history's own scripted veto) without waiting for the
+   target *)
 Theorem source_never_blocked :
   forall (c : pcfg) (steps : list step),
     p_flat c = false ->
@@ -49,6 +52,21 @@ Theorem flat_source_stuck_refuted :
     src_unhindered (c_srclog (run c steps)) = false.
 Proof. exact C18Proofs.flat_source_stuck_refuted_lemma. Qed.
 Print Assumptions flat_source_stuck_refuted.
+
+(* which source calls fire a pipe handler: a CanAdd1/CanRemove1 check, a
+   mutation vetoed by a handler bound after the pipe (the state's own
+   Enter/Exit when it runs, AnyEnter always) and an Add(Bar) vetoed by
+   BarEnter after the piped state's Exit handlers ran change neither
+   machine, put no call in flight and reach the target with nothing *)
+Theorem check_or_veto_silent :
+  forall (c : pcfg) (s : cfg) (st : step),
+    C18Proofs.silent_step c s st = true ->
+    let s' := exec_step c s st in
+    c_src s' = c_src s /\ c_tgt s' = c_tgt s /\ c_bag s' = c_bag s /\
+    c_dellog s' = c_dellog s /\ exists code, c_evlog s' = c_evlog s ++ [0%N] /\
+    c_srclog s' = c_srclog s ++ [code].
+Proof. exact C18Proofs.check_or_veto_silent_lemma. Qed.
+Print Assumptions check_or_veto_silent.
 
 (* ---------------------------------------------------------------- flat *)
 
